@@ -72,6 +72,9 @@ def run(case):
         b = mk_ann(tb, case["b"])
         c = tb.t(case["collar"])
         sup = mk_sup(tb, case["sup"])
+        # answers handed out earlier and edited by the caller do not change what is answered now
+        for junk in (a.labels(), a.chart(), b.labels()):
+            junk.reverse(); junk.append("zz_junk"); del junk[:1]
         labels = a.labels()
         durs = [[nm(l), tb.u(a.label_duration(l))] for l in labels]
         chart = a.chart()
